@@ -119,7 +119,12 @@ func runC14(c *Ctx) {
 	ruleHeaderSides(c)
 	ruleLineExact(c)
 	ruleSentinelComplete(c)
+	ruleUnifyOrder(c)
+	ruleMergeTarget(c)
+	ruleMdiffPairs(c)
+	ruleFormatCursors(c)
 	ruleTimeExact(c)
+	ruleSpanSiblings(c)
 	c.rule("R-CONTEXT-FRESH", 1, "the leading and trailing context findContext returns are separate allocations (shared with C13): the formats print what Unify merged in place")
 	if fc := P.Func("mdiff", "Diff", "findContext"); fc != nil {
 		ruleContextDisjoint(c, fc)
